@@ -26,7 +26,7 @@ def workdir(ctx):
 
 def base_configs(ctx):
     rng = ctx.rng
-    nb = 3 if ctx.quick() else 10
+    nb = 6 if ctx.quick() else 24
     res = []
     for i in range(nb):
         cfg = dict(n=rng.choice([16, 24, 32]), N=rng.choice([5, 6, 7, 8, 9, 10]), T=rng.choice([1, 1, 2]),
@@ -45,8 +45,6 @@ def variants(ctx, base, wd, tfile):
     vs = []
     for o in outs:
         for h in saves:
-            if ctx.quick() and (o, h) not in ((0, 0), (1, 0), (1, 2), (3, 0), (3, 1), (3, 2), (7, 1), (7, 2), (L, 0), (L, 1)):
-                continue
             vs.append(dict(base, outstep=o, h5save=h, tag="o%d_s%d" % (o, h)))
     vs.append(dict(base, outstep=3, h5save=1, verbose=True, tag="verbose"))
     vs.append(dict(base, outstep=3, h5save=1, tag="renamed", name="another_name_for_the_results"))
